@@ -313,6 +313,12 @@ def gen_heading(c: Ctx, first: bool, force_h1: bool = False) -> Tuple[List[str],
     elif k == 4:
         real = plain = rng.choice(TITLES)
         info = HeadingInfo(level, "unscalable", real)
+        if rng.random() < 0.3:
+            # an empty heading: its title is the empty string
+            doc.headings.append(HeadingInfo(level, "unscalable", ""))
+            doc.tags.append(f"heading-h{level}-empty")
+            line = "#" * level + rng.choice(["", " ", "   ", " #", " ##  "])
+            return [line], [line]
     elif k == 5:
         a, b = c.prose_run("heading", 2)
         real, plain = f"Stew {a} for 4", f"Stew {b} for 4"
@@ -401,7 +407,8 @@ class RecipeNS:
         return out
 
 
-OTHER_LANGS = ["python", "python", "", "Recipe", "recipes", "new-recipe2", "text recipe", "recipe-", "RECIPE", "c++", "python"]
+OTHER_LANGS = ["python", "python", "", "Recipe", "recipes", "new-recipe2", "text recipe", "recipe-", "RECIPE", "c++", "python",
+               "pseudo-recipe", "old-recipe", "recipe2", "xnew-recipe", "pseudo-recipe", "old-new-recipe", "recipe.new-recipe"]
 
 
 def gen_code(c: Ctx, ns_box: List[RecipeNS], depth: int = 0, after_list: bool = False) -> Tuple[List[str], str]:
@@ -416,6 +423,9 @@ def gen_code(c: Ctx, ns_box: List[RecipeNS], depth: int = 0, after_list: bool = 
         return [(ind + l) if l else "" for l in body], "block-indented"
     if k <= 4:
         body = ns_box[0].block(rng)
+        if rng.random() < 0.04:
+            body = rng.choice([[], ["   "], [""]])        # a stub: compiling it is a ParseError
+            c.doc.tags.append("block-blank")
         fence = rng.choice(["```", "```", "~~~", "````"])
         info = rng.choice(["recipe", "recipe", " recipe", "recipe  ", "recipe extra words"])
         if fence[0] == "`" and "`" in info:
